@@ -62,7 +62,8 @@ static void *qv_memcpy(void *dst, const void *src, size_t n) {
 #define MAXVAL (Q_HASHARR_DATASIZE + (HM - 1) * (int)sizeof(struct Q_HASHARR_SLOT_EXT))
 #ifndef QV_NATIVE
 static void *qv_malloc(size_t n) {
-    if (n > MAXVAL) return malloc(n);                       /* the handle object itself: ordinary allocation */
+    if (n == sizeof(qhasharr_t)) return malloc(sizeof(qhasharr_t));   /* the handle object itself: ordinary allocation of constant size */
+    __CPROVER_assert(n <= MAXVAL, "C11: result buffer request is bounded by the table capacity");
     if (nondet_bool()) return NULL;                         /* allocation may fail */
     void *p = QV_ALLOC(MAXVAL);
     gh_last_alloc = p; gh_last_size = n;
